@@ -3,7 +3,7 @@ import random
 
 from .. import treerec, treefam
 from ..core import cps
-from ..lexrec import sigma_strings, SIGMA_QUICK, random_unicode, notable_inputs, long_token_inputs, rule_samples
+from ..lexrec import sigma_strings, SIGMA_QUICK, random_unicode, notable_inputs, long_token_inputs, rule_samples, compat_keyword_inputs
 from .c01 import repo_texts
 
 LEVEL = 'model_checking'
@@ -21,6 +21,7 @@ def inputs(ctx, quick, rng):
     texts += [random_unicode(rng, 50) for _ in range(800 if quick else 6000)]
     texts += notable_inputs() + [t for t in long_token_inputs() if len(t) < 6000 and ' ' * 50 not in t]
     texts += rule_samples(rng, 8 if quick else 40)
+    texts += compat_keyword_inputs(rng, 30 if quick else 300)
     fx = repo_texts()
     texts += [t[:300] for t in fx] + [t[i:i + 150] for t in fx for i in range(0, min(len(t), 1500), 150)]
     return texts
